@@ -660,6 +660,84 @@ func runStream(c *caseIn, out *caseOut) {
 	}
 }
 
+// runConc: the writers of the script run in their OWN goroutines on one connection (each writer's ops in order, raw
+// WriteFrame calls in one more goroutine), so frames of different tunnels interleave as the Go scheduler and the
+// kernel decide.  Supplement to the deterministic scripts: whatever the interleaving, the reader must receive
+// exactly what was written to its tunnel (WriteFrame must put a frame on the connection atomically).
+func runConc(c *caseIn, out *caseOut) {
+	total := 0
+	for _, op := range c.Ops {
+		total += len(op.Data) / 2
+	}
+	limit := total + len(c.Ops) + 16
+	a, b := tcpPair()
+	conn := crossnode.NewConn(context.Background(), "peer", a, nil)
+	streams := make([]*crossnode.FrameStream, len(c.Writers))
+	for i, w := range c.Writers {
+		id, err := crossnode.TunnelIDFromString(string(unhx(w)))
+		hmust(err)
+		streams[i] = crossnode.NewFrameStream(conn, id)
+	}
+	groups := make([][]opIn, len(c.Writers)+1)
+	for _, op := range c.Ops {
+		switch op.K {
+		case "w", "cw", "c":
+			groups[op.W] = append(groups[op.W], op)
+		case "f":
+			groups[len(c.Writers)] = append(groups[len(c.Writers)], op)
+		default:
+			panic("bad op in conc mode " + op.K)
+		}
+	}
+	rdone := make(chan readRes, 1)
+	go func() { rdone <- readerSide(c, b, limit) }()
+	wdone := make(chan struct{}, len(groups))
+	start := make(chan struct{})
+	for _, g := range groups {
+		go func(g []opIn) {
+			defer func() { wdone <- struct{}{} }()
+			<-start
+			for _, op := range g {
+				switch op.K {
+				case "w":
+					streams[op.W].Write(unhx(op.Data))
+				case "cw":
+					streams[op.W].CloseWrite()
+				case "c":
+					streams[op.W].Close()
+				case "f":
+					crossnode.WriteFrame(a, tid16(op.Tid), byte(op.Ty), unhx(op.Data))
+				}
+			}
+		}(g)
+	}
+	close(start)
+	go func() {
+		for range groups {
+			<-wdone
+		}
+		a.CloseWrite()
+	}()
+	var rr readRes
+	select {
+	case rr = <-rdone:
+	case <-time.After(30 * time.Second):
+		rr = readRes{term: "hang"}
+	}
+	b.Close()
+	a.Close()
+	out.Term, out.Final, out.Broken = rr.term, rr.final, rr.broken
+	got := bytes.Join(rr.reads, nil)
+	out.WireLen = len(got)
+	readerStr := unhx(c.Reader)
+	// per-writer order is preserved by construction, so the string-level reference over the script applies
+	exp, _ := reference(c, func(i int) bool { return bytes.Equal(unhx(c.Writers[i]), readerStr) })
+	if !bytes.Equal(got, exp) || rr.term != "eof" {
+		out.fail("concurrent-writers", "reader for tunnel %q with %d concurrent writers: got %d bytes (term=%s), want %d bytes then EOF (first difference at byte %d)",
+			string(readerStr), len(groups), len(got), rr.term, len(exp), firstDiff(got, exp))
+	}
+}
+
 func firstDiff(a, b []byte) int {
 	n := len(a)
 	if len(b) < n {
@@ -732,6 +810,8 @@ func runCase(raw json.RawMessage) (res interface{}) {
 		runStream(&c, out)
 	case "tid":
 		runTid(&c, out)
+	case "conc":
+		runConc(&c, out)
 	default:
 		panic("bad mode " + c.Mode)
 	}
